@@ -30,11 +30,21 @@ def _scramble_loaded_configuration(path):
         pass
 
 
+_CLONE = {}
+
+
 def build(case):
     target.load_config(case.get('cfg') or None)          # (the same file the instance is about to be created from: the scramble is self-contained)
     _scramble_loaded_configuration(target.config_path(case.get('cfg') or None))
     cpu = target.new_cpu(case.get('cfg') or None, case.get('hooked', False), [tuple(m) for m in case['mems']])
     target.budget_cpu(cpu, case.get('hooked', False))
+    _CLONE.clear()
+    if (case['state'].get('cpsr', 0) ^ case['state'].get('R.R0usr', 0)) % 37 == 0:
+        # one case in 37 (a function of the case): a deep copy of the freshly constructed instance is set aside before the embedder programs the original
+        # (registers written in place through their accessors, memory filled) and steps it - a copy is a separate processor, nothing may reach it
+        import copy
+        _CLONE['cpu'] = copy.deepcopy(cpu)
+        _CLONE['snap'] = target.snapshot(_CLONE['cpu'], True)
     target.apply_state(cpu, case['state'])
     for a, d in case.get('poke', ()):
         target.poke(cpu, a, bytes.fromhex(d) if isinstance(d, str) else d)
@@ -63,10 +73,15 @@ def bystander_check():
     if 'cpu' not in _BY:
         _arm_bystander()
         return {}
+    d = {}
+    if 'cpu' in _CLONE:
+        now = target.snapshot(_CLONE['cpu'], True)
+        d.update({'bystander:deepcopy-taken-before:' + k: (_CLONE['snap'].get(k), now.get(k)) for k in now if now.get(k) != _CLONE['snap'].get(k)})
+        _CLONE.clear()
     now = target.snapshot(_BY['cpu'], True)
     if now == _BY['snap']:
-        return {}
-    d = {'bystander:' + k: (_BY['snap'].get(k), now.get(k)) for k in now if now.get(k) != _BY['snap'].get(k)}
+        return d
+    d.update({'bystander:' + k: (_BY['snap'].get(k), now.get(k)) for k in now if now.get(k) != _BY['snap'].get(k)})
     _arm_bystander()
     return d
 
